@@ -35,12 +35,13 @@ def cfg(name, mode, **kw):
 BOTH = "{FALSE, TRUE}"
 # --- C08: every outcome in every form through every stack -------------------------------------------------
 cfg("rs_expA.cfg", "exp")
-cfg("rs_expB.cfg", "exp", Stacks="StacksTimes", Outcomes="Out3", MaxTimes=2, MaxCalls=9, AllowDone="TRUE", AllowProgress="TRUE")
+cfg("rs_expB.cfg", "exp", Stacks="StacksTimes", Outcomes="Out1", MaxTests=1, MaxTimes=3, MaxCalls=9, AllowDone="TRUE", AllowProgress="TRUE")
 cfg("rs_mcA3.cfg", "mc", Stacks="StacksCore", Outcomes="Out13", MaxTests=3, MaxCalls=11)
 # --- C04: verdict, failfast, stop -----------------------------------------------------------------------------
 cfg("rs_expC1.cfg", "exp", Outcomes="Out4", AllowStop="TRUE", PreFF=BOTH, MaxCalls=9)
 cfg("rs_expC2.cfg", "exp", Stacks="StacksSetFF", Outcomes="Out3", AllowSetFF="TRUE", MaxCalls=9)
 cfg("rs_expC3.cfg", "exp", Outcomes="Out2", MaxRuns=2, PreFF=BOTH, MaxCalls=10)
+cfg("rs_expP.cfg", "exp", Stacks="StText", Outcomes="Out6", PreFF=BOTH, MaxTests=3, MaxCalls=11)
 cfg("rs_mcC.cfg", "mc", Stacks="StacksCore", Outcomes="Out4", AllowStop="TRUE", AllowSetFF="TRUE", PreFF=BOTH, MaxRuns=2, MaxCalls=11)
 # --- C17: tags ----------------------------------------------------------------------------------------------------
 cfg("rs_expT1.cfg", "exp", Stacks="StacksTags", Outcomes="Out1", TagOps="TagOps4", MaxTagOps=2, MaxCalls=10)
